@@ -31,6 +31,9 @@ def sig_src(s):
     if s["kwarg"]: parts.append("**k")
     ret = "(" + "".join("%s, " % n for n in s["pos"] + s["kwonly"]) + ")"
     ret = "(%s, %s, %s)" % (ret, "list(c)" if s["vararg"] else "None", "[(n, k[n]) for n in sorted(k)]" if s["kwarg"] else "None")
+    if s.get("capture"):
+        # every parameter is captured by an inner scope (cell variables filled from the arguments)
+        ret = "(lambda: %s)()" % ret
     if s.get("lambda"): return "f = lambda %s: %s\n" % (", ".join(parts), ret)
     return "def f(%s):\n    return %s\n" % (", ".join(parts), ret)
 
@@ -121,6 +124,7 @@ def check(res):
     progs = []; metas = []
     # every signature as a def and as a lambda (the parameter list of a lambda goes through its own grammar rules)
     sig_sel = [dict(s, **{"lambda": lam}) for s in sig_sel for lam in ((False, True) if tier != "quick" else (rnd.random() < 0.5,))]
+    sig_sel = [dict(s, capture=cap) for s in sig_sel for cap in ((False, True) if tier != "quick" else (rnd.random() < 0.5,))]
     for s in sig_sel:
         sel = call_sel()
         src = PRE + sig_src(s) + "".join("t(lambda: %s)\n" % call_src(c) for c in sel)
